@@ -63,7 +63,35 @@ func runVec(c *hx.Ctx, v vec, reps int) {
 	src := &drawSource{}
 	rule.VerifSetRand(rand.New(src))
 	ctx := context.Background()
-	for d := 0; d < total; d++ {
+	// small totals: EVERY draw; large totals: every boundary of every cumulative sum (all orders' cut points) +- 1
+	var draws []int
+	if total <= 1500 {
+		for d := 0; d < total; d++ {
+			draws = append(draws, d)
+		}
+	} else {
+		set := map[int]bool{0: true, total - 1: true}
+		var sums func(i, acc int)
+		sums = func(i, acc int) {
+			if i == len(v) {
+				for _, d := range []int{acc - 1, acc, acc + 1} {
+					if d >= 0 && d < total {
+						set[d] = true
+					}
+				}
+				return
+			}
+			sums(i+1, acc)
+			sums(i+1, acc+int(v[i].w))
+		}
+		sums(0, 0)
+		for d := range set {
+			draws = append(draws, d)
+		}
+		sort.Ints(draws)
+		c.Count("wc.large_total_boundary_draws")
+	}
+	for _, d := range draws {
 		seen := map[string]bool{}
 		for k := 0; k < reps; k++ {
 			src.v = int64(d)
@@ -109,7 +137,7 @@ func Run(c *hx.Ctx) {
 	}
 	rec(nil)
 	// random vectors: dominant weights, powers of two and not, up to 6 clusters
-	pool := []int{0, 1, 2, 3, 7, 8, 16, 31, 33, 64, 100, 127, 128, 255, 256}
+	pool := []int{0, 1, 2, 3, 7, 8, 16, 31, 33, 64, 100, 101, 127, 128, 255, 256, 1000, 65535, 65536, 1000000}
 	for i := 0; i < c.N(40, 600); i++ {
 		n := 1 + c.Rng.Intn(6)
 		var v vec
